@@ -281,15 +281,65 @@ func genHeap(c *Ctx) {
 			c.Emit(withHints(ops))
 		}
 	}
+	// exhaustive: accepted and rejected Puts through ONE replayer in every order.  Member 0 carries no ID, member 1 (a clone)
+	// an explicit one; "the newest publication" is the copy the last accepted automatic Put returned (it carries the ID it
+	// was given), so republishing it is rejected by the replayers that assign IDs.  With automatic IDs (kinds 0, 1) member 0 is
+	// accepted and the two others are rejected, with explicit IDs (kinds 2, 3) it is the other way round.  Every publication's
+	// encoding (its ID line included) is re-read after every step.
+	for kind := 0; kind < 4; kind++ {
+		for length := 1; length <= 5; length++ {
+			seq := make([]int, length)
+			for {
+				ops := []val.V{app(0, 0), val.L(val.N(4), val.N(0)), val.L(val.N(1), val.N(1), val.L(val.S("x")))}
+				members, newest := 2, 1
+				for _, a := range seq {
+					target := []int{0, newest, 1}[a]
+					ops = append(ops, val.L(val.N(6), val.Int(target), val.Int(kind)))
+					if a == 0 && kind < 2 {
+						newest = members
+						members++
+					}
+				}
+				ops = append(ops, app(0, 1))
+				c.Count("exhaustive-accepted-and-rejected-puts")
+				c.Emit(withHints(ops))
+				k := length - 1
+				for k >= 0 {
+					seq[k]++
+					if seq[k] < 3 {
+						break
+					}
+					seq[k] = 0
+					k--
+				}
+				if k < 0 {
+					break
+				}
+			}
+		}
+	}
 	n, maxOps := 3000, 16
 	if c.Thorough {
 		n, maxOps = 60000, 40
 	}
 	for i := 0; i < n; i++ {
-		size := 1
+		// the generator follows which members exist and which of them carry an ID (a Put through a replayer that assigns IDs
+		// adds the stored copy to the family iff the target has none)
+		hasID := []bool{false}
 		l := 1 + c.R.Intn(maxOps)
 		ops := make([]val.V, 0, l)
+		put := func(t, kind int) {
+			ops = append(ops, val.L(val.N(6), val.Int(t), val.Int(kind)))
+			c.Count("op:put")
+			if kind < 2 && !hasID[t] {
+				hasID = append(hasID, true)
+				c.Count("op:put:auto-accepted")
+			} else if kind < 2 {
+				c.Count("op:put:auto-rejected")
+			}
+		}
 		for j := 0; j < l; j++ {
+			size := len(hasID)
 			t := c.R.Intn(size)
 			switch x := c.R.Intn(100); {
 			case x < 45:
@@ -300,7 +350,9 @@ func genHeap(c *Ctx) {
 				if c.R.Intn(4) == 0 {
 					idv = "" // set, but empty
 				}
-				ops = append(ops, val.L(val.N(1), val.Int(t), val.Opt(val.S(idv), c.R.Intn(4) > 0)))
+				present := c.R.Intn(4) > 0
+				ops = append(ops, val.L(val.N(1), val.Int(t), val.Opt(val.S(idv), present)))
+				hasID[t] = present
 				c.Count("op:set-id")
 			case x < 58:
 				ops = append(ops, val.L(val.N(2), val.Int(t), val.Opt(val.S("ty"), c.R.Bool())))
@@ -309,24 +361,36 @@ func genHeap(c *Ctx) {
 				ops = append(ops, val.L(val.N(3), val.Int(t), val.Z(int64(c.R.Intn(5))*1_000_000)))
 				c.Count("op:set-retry")
 			case x < 80:
-				if size < 8 {
+				if size < 10 {
 					ops = append(ops, val.L(val.N(4), val.Int(t)))
-					size++
+					hasID = append(hasID, hasID[t])
 					c.Count("op:clone")
 				}
 			case x < 82:
 				ops = append(ops, val.L(val.N(5), val.Int(t)))
+				hasID[t] = false
 				c.Count("op:reset")
 			case x < 84:
 				ops = append(ops, val.L(val.N(7), val.Int(t), line(c.R.Intn(26)), val.N(0)))
+				hasID[t] = false
 				c.Count("op:unmarshal")
 			case x < 86:
 				ops = append(ops, val.L(val.N(8), val.Int(t), val.S("ty"), val.Opt(line(c.R.Intn(26)), c.R.Bool()), val.N(0)))
+				hasID[t] = false
 				c.Count("op:unmarshal-typed")
+			case x < 92:
+				if size < 12 {
+					put(t, c.R.Intn(4))
+				}
 			case x < 95:
-				// the family grows only if the Put is accepted (the target has no ID): keep targets conservative
-				ops = append(ops, val.L(val.N(6), val.Int(t), val.Int(c.R.Intn(4))))
-				c.Count("op:put")
+				// a burst of publications through one replayer: any members, those that carry an ID (earlier publications
+				// among them) included, so accepted and rejected Puts alternate
+				kind := c.R.Intn(4)
+				for k := 2 + c.R.Intn(3); k > 0 && len(hasID) < 12; k-- {
+					put(c.R.Intn(len(hasID)), kind)
+					j++
+				}
+				c.Count("op:put-burst")
 			default:
 				ops = append(ops, val.L(val.N(9), val.Int([]int{300, 600, 1100}[c.R.Intn(3)])))
 				c.Count("op:clock-advance-and-collect")
